@@ -234,4 +234,39 @@ theorem upper_exact (col : ColT) (b : B) (v : Int) (hv : inCol col v) (hb : b.wf
     | i w => exact upper_i col false w v hv hb
     | u w => exact upper_u col false w v hv hb
 
+theorem encF_le (a b : Int) (ha : -(2 ^ 53) < a ∧ a < 2 ^ 53) (hb : -(2 ^ 53) < b ∧ b < 2 ^ 53) :
+    (encF a ≤ encF b ↔ a ≤ b) ∧ (encF a < encF b ↔ a < b) := by
+  have p53 := pow53
+  have p54 : (2 : Int) ^ 54 = 18014398509481984 := by decide
+  unfold encF
+  rw [p54]
+  rw [p53] at ha hb
+  constructor <;> omega
+
+theorem f64_column_exact (lo hi : B) (hv : Int) (hs : -(2 ^ 53) < hv ∧ hv < 2 ^ 53)
+    (hlo : lo.small) (hhi : hi.small) : implMatchF lo hi hv = specMatchF lo hi hv := by
+  unfold implMatchF specMatchF
+  rw [inRangeN_eq]
+  congr 1
+  · cases lo with
+    | unb => rfl
+    | incl b =>
+      have h := encF_le b.twice hv hlo hs
+      simp only [coerceF, lowerHolds]
+      rw [Bool.eq_iff_iff, decide_eq_true_eq, decide_eq_true_eq]; exact h.1
+    | excl b =>
+      have h := encF_le b.twice hv hlo hs
+      simp only [coerceF, lowerHolds]
+      rw [Bool.eq_iff_iff, decide_eq_true_eq, decide_eq_true_eq]; exact h.2
+  · cases hi with
+    | unb => rfl
+    | incl b =>
+      have h := encF_le hv b.twice hs hhi
+      simp only [coerceF, upperHolds]
+      rw [Bool.eq_iff_iff, decide_eq_true_eq, decide_eq_true_eq]; exact h.1
+    | excl b =>
+      have h := encF_le hv b.twice hs hhi
+      simp only [coerceF, upperHolds]
+      rw [Bool.eq_iff_iff, decide_eq_true_eq, decide_eq_true_eq]; exact h.2
+
 end TantivyModel.JsonRange
